@@ -15,7 +15,7 @@ META = {
         "path the real Client.bulkwalk (bulkget, _bulkwalk_fetcher, multiwalk loop) runs for every listing order "
         "of the roots; the result must equal the set derived from the database and the result of the GETNEXT "
         "walk on the same database in the same path."),
-    "bounds": ["universe 14 OIDs (quick: 10); plus a universe with a 7-instance subtree next to short / empty ones, bulk 2..4", "root lists of 1..2 disjoint roots in every order (thorough: plus five 3-root sets on the 10-OID universe, policies full / eom_stop)",
+    "bounds": ["universe 14 OIDs (quick, and the rows / partial policies with two roots: 10); plus a universe with a 7-instance subtree next to short / empty ones, bulk 2..4", "root lists of 1..2 disjoint roots in every order (thorough: plus five 3-root sets on the 10-OID universe, policies full / eom_stop)",
                "bulk size 1..4 (quick 1..3)", "truncation: full / k rows (k symbolic 1..3) / partial last row (j symbolic) / stop after first all-endOfMibView row",
                "v2c everywhere, v3 authPriv on selected root sets"],
     "outside": ["bulk sizes above 4", "larger universes", "non-conformant agents (C03)"],
@@ -106,7 +106,7 @@ def jobs(tier):
                     continue  # three roots: five root sets, policies full / eom_stop (thorough tier only)
                 if quick and n == 2 and policy in ("rows", "partial") and combo not in (("A", "B"), ("A", "C"), ("B", "D"), ("C", "E"), ("D", "Z")):
                     continue
-                u = universe if n < 3 else SUB10
+                u = universe if (n < 3 and not (n == 2 and policy in ("rows", "partial"))) else SUB10
                 out.append(Job(f"bulk-v2c-{''.join(combo)}-{policy}", make_harness("v2c", combo, u, policy, max_bulk),
                                args(u), timeout=400 if quick else 1500, mode="E/concolic-window", functions=funcs,
                                sample_every=11))
